@@ -15,6 +15,7 @@ pub mod c18;
 pub mod c19;
 pub mod c20;
 pub mod life;
+pub mod pipes;
 
 pub fn run(ctx: &mut Ctx) -> bool {
     match ctx.prop.as_str() {
@@ -30,6 +31,8 @@ pub fn run(ctx: &mut Ctx) -> bool {
         "C10" => life::run(ctx, life::Flags { c09: false, c10: true }),
         "C11" => c11::run(ctx),
         "C12" => c12::run(ctx),
+        "C13" => pipes::run_c13(ctx),
+        "C14" => pipes::run_c14(ctx),
         "C15" => c15::run(ctx),
         "C16" => c16::run(ctx),
         "C17" => c17::run(ctx),
